@@ -304,28 +304,7 @@ def restart(check: Check) -> None:
     for key, good in (("inputs", "restart sets every input value to NaN"), ("rules", "restart reloads the rules of every block against this engine"),
                       ("outputs", "restart clears every output variable")):
         check.require(key not in bad, "H2", f"Engine.restart/{key}", f"{good} ({cases} model engines)" if key not in bad else bad[key], loc(fn), exhaustive=True, cases=cases)
-    rl = p.func("RuleBlock.reload_rules")
-    check.analysed(rl)
-    rr = Resolver(p, rl)
-    un = [n for n, c in rr.cfg.find_calls(".unload_rules") if rr.term(c.func.value, n) == ("param", "self")]  # type: ignore[union-attr]
-    # ... or the same thing spelled out: a loop over all rules of the block that unloads each one
-    for h, _, _ in loops_over(rr, lambda b: is_path(b, "self.rules")):
-        body = rr.cfg.loop_body(h)
-        calls_ = [n for n in body for c in rr.cfg.calls_in(n) if isinstance(c.func, ast.Attribute) and c.func.attr == "unload" and rr.term(c.func.value, n)[0] == "elem"]
-        if calls_ and not early_exits(rr.cfg, h) and not any(gn in body for n in calls_ for _, _, gn in rr.cfg.must_guards(n)):
-            un.append(h)
-    ld = [(n, rr.term(c, n)) for n, c in rr.cfg.find_calls(".load_rules")]
-    ok = bool(un) and bool(ld) and rr.cfg.must_precede(un, ld[0][0]) and ld[0][1][2] == (("param", rl.params[1].name),) and \
-        not rr.cfg.must_guards(ld[0][0]) and not any(rr.cfg.must_guards(n_) for n_ in un)
-    check.require(ok, "H2", "RuleBlock.reload_rules/sequence", "reload = unload all rules, then load them against the given engine", loc(rl))
-    for qual, coll, meth in (("RuleBlock.unload_rules", "rules", "unload"), ("RuleBlock.load_rules", "rules", "load")):
-        f = p.func(qual)
-        check.analysed(f)
-        r2 = Resolver(p, f)
-        ok = any(any(isinstance(c.func, ast.Attribute) and c.func.attr == meth and r2.term(c.func.value, n)[0] == "elem" for c in r2.cfg.calls_in(n))
-                 for h, _, _ in loops_over(r2, lambda b: is_path(b, f"self.{coll}")) for n in r2.cfg.loop_body(h)) and \
-            not any(early_exits(r2.cfg, h) for h, _, _ in loops_over(r2, lambda b: is_path(b, f"self.{coll}")))
-        check.require(ok, "H3", f"{qual}/all", f"{meth} is applied to every rule of the block", loc(f))
+    rule_block_loading(check)
     for qual in ("Rule.load", "Rule.unload"):
         f = p.func(qual)
         check.analysed(f)
@@ -334,6 +313,102 @@ def restart(check: Check) -> None:
         effects = [n for n, c in r2.cfg.all_calls() if isinstance(c.func, ast.Attribute) and c.func.attr in ("load", "unload", "parse")]
         ok = bool(deact) and bool(effects) and all(r2.cfg.must_precede(deact, n) for n in effects) and not any(r2.cfg.must_guards(n) for n in deact)
         check.require(ok, "H3", f"{qual}/deactivate-first", f"{qual} starts by resetting the rule's activation state", loc(f))
+
+
+def rule_block_loading(check: Check) -> None:
+    """H2 / H3 [E on the model blocks]: `RuleBlock.unload_rules`, `load_rules(engine)` and `reload_rules(engine)` interpreted (sa/absexec.py) on a block
+    of three model rules - each loaded or not, the second one failing to load or not - with every method called on a rule and every assignment to
+    one recorded: unloading unloads every rule and does nothing else to it; loading (re)loads every rule with the engine handed in - also after a
+    rule that fails - and reports the failures at the end; reloading leaves every rule loaded from the text and the weight it *has* (a rule is not
+    re-parsed from a printed form of itself, which would round its weight to the printed decimals)."""
+    from ..absexec import AbsExec, Internal, MObj, Raised, Unknown, _Return
+
+    p = check.program
+    import itertools
+
+    for meth in ("unload_rules", "load_rules", "reload_rules"):
+        fn = p.func(f"RuleBlock.{meth}")
+        check.analysed(fn)
+        node = fn.node
+        params = [a.arg for a in node.args.args]
+        why = None
+        cases = 0
+        try:
+            for loaded in itertools.product((True, False), repeat=3):
+                for failing in (False, True):
+                    if meth == "unload_rules" and failing:
+                        continue
+                    cases += 1
+                    engine = MObj("Engine", {"__bool__": True})
+                    log: list[tuple] = []
+                    rules = [MObj("Rule", {"index": i, "loaded": l, "text": f"text {i}", "weight": 0.0625 * (i + 1), "enabled": True, "__bool__": True}) for i, l in enumerate(loaded)]
+
+                    def load(ex_, e, recv, args, kw, log=log, engine=engine, failing=failing):
+                        log.append(("load", recv.fields["index"], (args[0] if args else kw.get("engine")) is engine))
+                        if failing and recv.fields["index"] == 1:
+                            recv.fields["loaded"] = False
+                            raise Raised("SyntaxError", e)
+                        recv.fields["loaded"] = True
+
+                    def unload(ex_, e, recv, args, kw, log=log):
+                        log.append(("unload", recv.fields["index"]))
+                        recv.fields["loaded"] = False
+
+                    def other(name_):
+                        def f(ex_, e, recv, args, kw, log=log):
+                            if isinstance(recv, MObj) and recv.cls == "Rule":
+                                log.append((name_, recv.fields["index"]))
+                                return None
+                            raise Unknown(f"RuleBlock.{meth}: {name_}() on something that is not a rule of the block")
+                        return f
+
+                    hooks = {"method:load": load, "method:unload": unload, "method:is_loaded": lambda ex_, e, recv, args, kw: recv.fields["loaded"],
+                             **{f"method:{nm}": other(nm) for nm in ("parse", "deactivate", "create", "activate_with", "trigger")}}
+                    me = MObj("RuleBlock", {"rules": rules, "name": "block", "enabled": True, "__len__": 3})
+                    ex = AbsExec(fn.qualname, hooks, helpers={k: v for k, v in fn.cls.methods.items() if k in ("unload_rules", "load_rules", "reload_rules") and k != meth})
+                    env = {params[0]: me}
+                    if len(params) > 1:
+                        env[params[1]] = engine
+                    before = [(r_.fields["text"], r_.fields["weight"]) for r_ in rules]
+                    outcome = None
+                    try:
+                        ex.block(list(node.body), env)
+                    except _Return:
+                        pass
+                    except Raised as r_:
+                        outcome = r_.cls
+                    except Internal as i_:
+                        why = why or f"RuleBlock.{meth} ends with an internal {i_.cls}"
+                        continue
+                    what = f"rules {['loaded' if l else 'not loaded' for l in loaded]}" + (", the second one fails to load" if failing else "")
+                    after = [(r_.fields["text"], r_.fields["weight"]) for r_ in rules]
+                    extra = [ev for ev in log if ev[0] not in ("load", "unload", "deactivate")]
+                    if after != before or extra or me.fields["rules"] != rules:
+                        why = why or (f"{what}: RuleBlock.{meth} {'calls ' + extra[0][0] + '() on a rule' if extra else 'changes the text or the weight of a rule'} - "
+                                      "(re)loading reads a rule, it does not rewrite it (a rule re-parsed from its printed text has its weight rounded to the printed decimals)")
+                    loads = [ev for ev in log if ev[0] == "load"]
+                    if meth == "unload_rules":
+                        if any(r_.fields["loaded"] for r_ in rules) or loads:
+                            why = why or f"{what}: after unload_rules some rule is still loaded (or was loaded)"
+                    else:
+                        if [ev[1] for ev in loads] != [0, 1, 2] or not all(ev[2] for ev in loads):
+                            why = why or (f"{what}: RuleBlock.{meth} loads the rules {[ev[1] for ev in loads]}" + ("" if all(ev[2] for ev in loads) else " (not with the engine handed in)")
+                                          + ", specified every rule of the block once, in order, with the engine handed in - whatever was loaded before and whether an earlier rule failed")
+                        if failing and outcome is None:
+                            why = why or f"{what}: RuleBlock.{meth} does not report that a rule failed to load"
+                        if not failing and outcome is not None:
+                            why = why or f"{what}: RuleBlock.{meth} raises {outcome} although every rule loads"
+                        # a rule that was loaded is unloaded before it is loaded again (its old tree must not survive a failing load)
+                        for i in range(3):
+                            evs = [ev[0] for ev in log if ev[1] == i and ev[0] in ("load", "unload")]
+                            if loaded[i] and (not evs or evs[0] != "unload"):
+                                why = why or f"{what}: rule {i} was loaded and is loaded again without being unloaded first"
+        except Unknown as u:
+            raise AnalysisError(str(u)) from None
+        rule_id, construct = ("H2", "RuleBlock.reload_rules/sequence") if meth == "reload_rules" else ("H3", f"RuleBlock.{meth}/all")
+        good = {"reload_rules": "reload = every rule unloaded, then loaded against the given engine, untouched otherwise", "unload_rules": "unload is applied to every rule of the block",
+                "load_rules": "load is applied to every rule of the block, failures reported at the end"}[meth]
+        check.require(why is None, rule_id, construct, f"{good} ({cases} model blocks)" if why is None else why, loc(fn), exhaustive=True, cases=cases)
 
 
 # ------------------------------------------------------------------------------------------------ H4
